@@ -6,6 +6,7 @@
 //              exact == exact(extendp) on the common domain, TransverseMercator(exact=true) == TransverseMercatorExact
 //   jacobian : gamma, k against a Richardson finite-difference Jacobian of the library's own Forward (conformality)
 //   selftest : the oracle validates itself (herr on failure, never a verdict on the library)
+#include "harness/value_semantics.hpp"   // long-lived projection objects are detached copies
 #include <GeographicLib/TransverseMercator.hpp>
 #include <GeographicLib/TransverseMercatorExact.hpp>
 #include <memory>
@@ -75,11 +76,11 @@ static const double K0S[] = {0.9996, 1.0, 0.5, 2.0};
 static void build(Cfg& c) {
   if (c.utm) { if (c.cls == SERIES) c.sp = &TransverseMercator::UTM(); else c.ep = &TransverseMercatorExact::UTM(); return; }
   switch (c.cls) {
-    case SERIES: c.s.reset(new TransverseMercator(c.a, c.f, c.k0)); c.sp = c.s.get(); break;
-    case EXACT: c.e.reset(new TransverseMercatorExact(c.a, c.f, c.k0, false)); c.ep = c.e.get(); break;
-    case EXACT_EXT: c.e.reset(new TransverseMercatorExact(c.a, c.f, c.k0, true)); c.ep = c.e.get(); break;
-    case DELEG: c.s.reset(new TransverseMercator(c.a, c.f, c.k0, true, false)); c.sp = c.s.get(); break;
-    default: c.s.reset(new TransverseMercator(c.a, c.f, c.k0, true, true)); c.sp = c.s.get(); break;
+    case SERIES: c.s.reset(vh::detached_new<TransverseMercator>([&] { return TransverseMercator(c.a, c.f, c.k0); }, [&] { return TransverseMercator(c.a * 1.25, 0.004, 0.9); })); c.sp = c.s.get(); break;
+    case EXACT: c.e.reset(vh::detached_new<TransverseMercatorExact>([&] { return TransverseMercatorExact(c.a, c.f, c.k0, false); }, [&] { return TransverseMercatorExact(c.a * 1.25, 0.05, 0.9, true); })); c.ep = c.e.get(); break;
+    case EXACT_EXT: c.e.reset(vh::detached_new<TransverseMercatorExact>([&] { return TransverseMercatorExact(c.a, c.f, c.k0, true); }, [&] { return TransverseMercatorExact(c.a * 1.25, 0.05, 0.9, false); })); c.ep = c.e.get(); break;
+    case DELEG: c.s.reset(vh::detached_new<TransverseMercator>([&] { return TransverseMercator(c.a, c.f, c.k0, true, false); }, [&] { return TransverseMercator(c.a * 1.25, 0.05, 0.9, true, true); })); c.sp = c.s.get(); break;
+    default: c.s.reset(vh::detached_new<TransverseMercator>([&] { return TransverseMercator(c.a, c.f, c.k0, true, true); }, [&] { return TransverseMercator(c.a * 1.25, 0.004, 0.9); })); c.sp = c.s.get(); break;
   }
 }
 // cls: SERIES or one of the exact variants
